@@ -73,7 +73,7 @@ REQUIRE = {
     "subop_requests_served": 5,
     "followup_echo_release_ok": 40,
     "followup_peer_release_ok": 10,
-    "silence_aborted": 10,
+    "silence_aborted": 10, "race_window_calls": 5,
 }
 REQUIRE.update({"op_%s" % _o: 8 for _o in ("echo", "store", "find", "get", "move", "n_get", "n_set", "n_action",
                                            "n_create", "n_delete", "n_event_report")})
@@ -168,6 +168,11 @@ def reference(case) -> dict:
             continue
         if a == "store_rq":
             handler_uids.append(step["uid"])
+            continue
+        if a == "abort-racing":
+            exp.append(dict(empty))
+            end = "peer-aborted"
+            stopped = True
             continue
         if a in ("silence", "close", "abort", "relrq-silence"):
             exp.append(dict(empty))
@@ -450,6 +455,8 @@ def gen_cases(tier, seed):
                 cases.append(_case(op, "release-rq-then-silence", pendings(op, k, rng=rng) + [{"a": "relrq-silence"}], rng))
         for op in ("echo", "store", "n_get"):
             cases.append(_case(op, "release-rq-then-silence", [{"a": "relrq-silence"}], rng))
+        for op in ("echo", "store", "find", "get", "move", "n_get", "n_set"):
+            cases.append(_case(op, "peer-abort-racing-the-call", [{"a": "abort-racing"}], rng))
         # ---------------- single response operations
         for op in STATUS_ONLY_OPS + PAIR_OPS:
             kind = RSP_KIND[op]
@@ -520,6 +527,7 @@ class Acceptor:
                     "release_rq_answered": False, "peer_release_rp": None, "errors": [], "sent": 0}
         self.threads = []
         self.deadline = time.time() + WATCHDOG + 6
+        self.race_go = threading.Event()       # set by the caller side when its send_* call is past the is_established check
 
     def start(self):
         t = threading.Thread(target=self._accept_loop, daemon=True)
@@ -594,6 +602,14 @@ class Acceptor:
         ctx = self._associate(p)
         if ctx is None:
             self.log["errors"].append("no A-ASSOCIATE-RQ")
+            return
+        if self.case["script"] and self.case["script"][0]["a"] == "abort-racing":
+            # the peer aborts while the caller's send_* call has passed its is_established check but not yet sent anything
+            if self.race_go.wait(6.0):
+                p.abort(source=0, reason=0)
+                p.wait_eof(2.0)
+            else:
+                self.log["errors"].append("the call never reached the race window")
             return
         m = p.recv_dimse(5.0)
         if not m or m.get("type") != "DIMSE":
@@ -1019,7 +1035,7 @@ def _run_once(case):
     def C(name, n=1):
         counters[name] = counters.get(name, 0) + n
 
-    dimse_timeout = DIMSE_TIMEOUT if any(s_["a"] in ("silence", "relrq-silence") for s_ in case["script"]) else DIMSE_TIMEOUT_NO_SILENCE
+    dimse_timeout = DIMSE_TIMEOUT if any(s_["a"] in ("silence", "relrq-silence", "abort-racing") for s_ in case["script"]) else DIMSE_TIMEOUT_NO_SILENCE
     ae = harness.make_ae("VERIF-SCU", timeouts=(4.0, dimse_timeout, 8.0, 4.0),
                          requested=[(u, ImplicitVRLittleEndian) for u in ALL_ABSTRACT])
     acc = Acceptor(case)
@@ -1040,6 +1056,19 @@ def _run_once(case):
             return {"key": _sig(case), "nontrivial": False, "sample": sample, "violations": [], "counters": counters,
                     "inconclusive": "association with the scripted acceptor not established"}
         caller = Caller(case, ae, assoc, acc, acc.lst.port)
+        if case["script"] and case["script"][0]["a"] == "abort-racing":
+            # _get_valid_context() is the first thing every send_* method does after its is_established check: hold the call there
+            # until the association's reactor has dealt with the peer's A-ABORT and ended
+            orig_gvc = assoc._get_valid_context
+
+            def held(*a_, **k_):
+                acc.race_go.set()
+                t_end = time.time() + 3.0
+                while assoc.is_alive() and time.time() < t_end:
+                    time.sleep(0.01)
+                C("race_window_calls")
+                return orig_gvc(*a_, **k_)
+            assoc._get_valid_context = held
         if case.get("sched"):
             _inject_delays(assoc, caller, case["sched"])
         caller.start()
@@ -1070,7 +1099,10 @@ def _run_once(case):
 
         # ---- request really reached the acceptor (workload sanity, not an oracle)
         rq = acc.log["request"]
-        if rq is None:
+        if rq is None and cat == "peer-abort-racing-the-call":
+            if not acc.race_go.is_set() or acc.log["errors"]:
+                inconclusive = inconclusive or "the call never reached the race window: %r" % acc.log["errors"]
+        elif rq is None:
             inconclusive = inconclusive or "acceptor saw no request: %r" % acc.log["errors"]
         elif rq["cmd"].get("CommandField") != cmdset.COMMAND_FIELD[RQ_KIND[op]]:
             inconclusive = inconclusive or "acceptor saw CommandField %r" % rq["cmd"].get("CommandField")
